@@ -174,7 +174,7 @@ func listPointers(ctx context.Context, meta bs.MetaStore) []string {
 	return out
 }
 
-func rowID(rowBytes []byte) int {
+func slRowID(rowBytes []byte) int {
 	var m struct {
 		ID *int `json:"id"`
 	}
